@@ -9,7 +9,7 @@
 //  * share reconstruction / consistency by XOR of the raw replicated shares;
 //  * a twin `TestWorld` with the same seed that redraws the three pairwise PRSS streams.
 
-use std::sync::OnceLock;
+use std::sync::{Mutex, OnceLock};
 
 use ::rand::{Rng as _, SeedableRng, rngs::StdRng};
 use rand_core::{CryptoRng, RngCore};
@@ -920,32 +920,45 @@ fn ctor_dp_for_histogram(env: &Env, src: &mut Src<'_>) -> CaseResult {
 
 /// What each helper draws for the three passes, recomputed in a twin world: pass k excludes
 /// helper k; the other two use the PRSS stream they share with each other.
-async fn twin_body<C: UpgradableContext>(ctx: C, b: usize, eps: f64) -> Vec<Option<Vec<u32>>> {
+/// For each of the three noise passes (their gates), the b samples this helper would draw from
+/// the randomness it shares with its LEFT and with its RIGHT neighbour. Which pair generates in
+/// which pass is the code's choice (the property only says that each bucket gets three
+/// pairwise-generated draws), so the oracle tries every assignment of pairs to passes.
+async fn twin_body<C: UpgradableContext>(ctx: C, b: usize, eps: f64) -> Vec<(Vec<u32>, Vec<u32>)> {
     let steps = MaliciousProtocolSteps { protocol: &HybridStep::DifferentialPrivacy, validate: &HybridStep::DifferentialPrivacyValidate };
     let v = ctx.dzkp_validator(steps, 1);
     let c = v.context();
     let dist = OPRFPaddingDp::new(eps, DP_DELTA, SS_CAP).unwrap();
     let mut out = vec![];
-    for (k, excluded) in [Role::H1, Role::H2, Role::H3].into_iter().enumerate() {
+    for k in 0..3 {
         let pc = match k {
             0 => c.narrow(&DPStep::LaplacePass1),
             1 => c.narrow(&DPStep::LaplacePass2),
             _ => c.narrow(&DPStep::LaplacePass3),
         };
-        out.push(match pc.role().direction_to(excluded) {
-            None => None,
-            Some(dir) => {
-                let (mut left, mut right) = pc.prss_rng();
-                // the stream shared with the peer that is *not* excluded
-                let rng = match dir {
-                    Direction::Left => &mut right,
-                    Direction::Right => &mut left,
-                };
-                Some((0..b).map(|_| dist.sample(rng)).collect())
-            }
-        });
+        let (mut left, mut right) = pc.prss_rng();
+        out.push(((0..b).map(|_| dist.sample(&mut left)).collect(), (0..b).map(|_| dist.sample(&mut right)).collect()));
     }
     out
+}
+
+/// pooled second moment of the released noise, normalised by its theoretical value (run level)
+static NOISE_POOL: Mutex<(f64, u64)> = Mutex::new((0.0, 0));
+
+/// run-level check over everything `released_buckets` pooled: the mean of noise^2 / (3 Var) is 1 for
+/// a sum of three independent draws of the documented law (2/3 if a pass is missing, 4/3 if one
+/// is applied twice, ...). Thresholds are many standard errors away at the pooled sample sizes.
+fn noise_moment(_env: &Env, _src: &mut Src<'_>) -> CaseResult {
+    let (sum, count) = *NOISE_POOL.lock().unwrap();
+    if count < 4000 {
+        return Ok(CaseOk::new(false, &0u8, json!({"pooled_buckets": count})).label("too-few-samples"));
+    }
+    let ratio = sum / count as f64;
+    let cj = json!({"pooled_buckets": count, "mean_of_noise_squared_over_three_variances": ratio});
+    if !(0.8..=1.25).contains(&ratio) {
+        return Err(violation("released-noise-second-moment", format!("over {count} released buckets the second moment of the noise is {ratio:.3} times that of a sum of three draws of the documented law"), cj));
+    }
+    Ok(CaseOk::new(true, &1u8, cj).label(format!("ratio:{:.2}", ratio)))
 }
 
 fn released_buckets(env: &Env, src: &mut Src<'_>) -> CaseResult {
@@ -984,7 +997,7 @@ fn released_buckets(env: &Env, src: &mut Src<'_>) -> CaseResult {
         let out = run_dp(&world, mal, b, w, &values, dp).await;
         drop(world);
         let tw = TestWorld::new_with(world_config(wseed));
-        let twin: [Vec<Option<Vec<u32>>>; 3] = if mal {
+        let twin: [Vec<(Vec<u32>, Vec<u32>)>; 3] = if mal {
             tw.malicious((), move |ctx, ()| twin_body(ctx, b, eps)).await
         } else {
             tw.semi_honest((), move |ctx, ()| twin_body(ctx, b, eps)).await
@@ -999,46 +1012,94 @@ fn released_buckets(env: &Env, src: &mut Src<'_>) -> CaseResult {
         }
     };
     let n = OPRFPaddingDp::new(eps, DP_DELTA, SS_CAP).map(|d| d.get_shift()).unwrap_or(0);
-    // the two generating helpers of a pass must have drawn identical streams (pairwise generated)
-    let mut draws: Vec<Vec<u32>> = vec![];
-    for k in 0..3 {
-        let got: Vec<&Vec<u32>> = (0..3).filter_map(|h| twin[h][k].as_ref()).collect();
-        if got.len() != 2 || got[0] != got[1] || twin[k][k].is_some() {
-            known_or_violation(env, "released-bucket:twin-streams", format!("pass {}: the twin world's two generating helpers do not hold one common stream", k + 1), case.clone())?;
-            return Ok(CaseOk::new(false, &0u8, Value::Null));
-        }
-        draws.push(got[0].clone());
-    }
     let modulus: i128 = 1i128 << w;
+    let mut labels: Vec<String> = vec![];
+    // (1) black box: the released noise = released - exact (centred) is a sum of three draws from
+    // [-n, n]: it lies in [-3n, 3n], and its second moment is three times that of one draw
+    let centred: Vec<i128> = (0..b)
+        .map(|i| {
+            let d = (res[i] as i128 - i128::from(values[i])).rem_euclid(modulus);
+            if d >= modulus / 2 { d - modulus } else { d }
+        })
+        .collect();
+    if 3 * i128::from(n) < modulus / 2 {
+        if let Some((i, c)) = centred.iter().enumerate().find(|(_, c)| c.abs() > 3 * i128::from(n)) {
+            known_or_violation(env, &format!("released-bucket:noise-out-of-range:w{w}"), format!("bucket {i}: exact {}, released {}: noise {c} lies outside [-3n, 3n] (n = {n})", values[i], res[i]), case.clone())?;
+        }
+        let (mut z, mut v2) = (0.0f64, 0.0f64);
+        for x in 0..=i64::from(n) {
+            let p = (-eps * x as f64).exp() * if x == 0 { 1.0 } else { 2.0 };
+            z += p;
+            v2 += p * (x as f64) * (x as f64);
+        }
+        let var1 = v2 / z;
+        // large epsilons (variance far below 1) make noise^2 / variance a rare-event statistic
+        // (mostly 0, occasionally thousands): they are left out of the pooled moment
+        if var1 >= 0.25 {
+            let sum: f64 = centred.iter().map(|c| (*c as f64) * (*c as f64)).sum::<f64>() / (3.0 * var1);
+            let mut g = NOISE_POOL.lock().unwrap();
+            g.0 += sum;
+            g.1 += b as u64;
+        }
+    } else {
+        labels.push("noise-range-wraps".into());
+    }
+    // (2) white box, order-agnostic: pair p = (helper p, helper p+1) shares helper p's right stream;
+    // some assignment of the three pairs to the three passes must explain every bucket
+    let stream = |k: usize, p: usize| -> &Vec<u32> { &twin[p][k].1 };
+    for k in 0..3 {
+        for p in 0..3 {
+            if twin[p][k].1 != twin[(p + 1) % 3][k].0 {
+                known_or_violation(env, "released-bucket:twin-streams", format!("pass {}: helpers {} and {} do not derive one common stream from their shared randomness", k + 1, p + 1, (p + 1) % 3 + 1), case.clone())?;
+                return Ok(CaseOk::new(false, &0u8, Value::Null));
+            }
+        }
+    }
+    const PERMS: [[usize; 3]; 6] = [[1, 2, 0], [0, 1, 2], [0, 2, 1], [1, 0, 2], [2, 0, 1], [2, 1, 0]];
+    let want_for = |sig: &[usize; 3], i: usize| -> (u128, u32) {
+        let noise: i128 = (0..3).map(|k| i128::from(stream(k, sig[k])[i]) - i128::from(n)).sum();
+        let m1 = (0..3).filter(|&k| stream(k, sig[k])[i] + 1 == n).count() as u32;
+        ((i128::from(values[i]) + noise).rem_euclid(modulus) as u128, m1)
+    };
+    let explains = PERMS.iter().position(|sig| (0..b).all(|i| want_for(sig, i).0 == res[i]));
     let mut minus_one_hits = 0u64;
     let mut wrapped = 0u64;
-    let mut bad: Vec<(usize, u128, u128, u32)> = vec![];
-    for i in 0..b {
-        let noise: i128 = (0..3).map(|k| i128::from(draws[k][i]) - i128::from(n)).sum();
-        let m1 = (0..3).filter(|&k| draws[k][i] + 1 == n).count() as u32;
-        let want = (i128::from(values[i]) + noise).rem_euclid(modulus) as u128;
-        if i128::from(values[i]) + noise < 0 || i128::from(values[i]) + noise >= modulus {
-            wrapped += 1;
+    match explains {
+        Some(pi) => {
+            labels.push(format!("twin:pairs-of-passes:{:?}", PERMS[pi]));
+            for i in 0..b {
+                let sig = &PERMS[pi];
+                let noise: i128 = (0..3).map(|k| i128::from(stream(k, sig[k])[i]) - i128::from(n)).sum();
+                if i128::from(values[i]) + noise < 0 || i128::from(values[i]) + noise >= modulus {
+                    wrapped += 1;
+                }
+                if want_for(sig, i).1 > 0 {
+                    minus_one_hits += 1;
+                }
+            }
         }
-        if m1 > 0 {
-            minus_one_hits += 1;
-        }
-        if res[i] != want {
-            bad.push((i, res[i], want, m1));
+        None => {
+            // width 32: every draw equal to -1 shared as 0 (the defect repaired by a `fix:` commit):
+            // the bucket is too large by exactly the number of such draws, under some assignment
+            let w32 = PERMS.iter().find(|sig| {
+                w == 32 && (0..b).any(|i| want_for(sig, i).0 != res[i]) && (0..b).all(|i| {
+                    let (want, m1) = want_for(sig, i);
+                    res[i] == want || (m1 > 0 && res[i] == (want + u128::from(m1)) % (1u128 << 32))
+                })
+            });
+            if let Some(sig) = w32 {
+                let i = (0..b).find(|i| want_for(sig, *i).0 != res[*i]).unwrap();
+                known_or_violation(env, "laplace-minus-one-w32", format!("width 32: bucket(s) released too large by exactly the number of noise draws equal to -1 (e.g. bucket {i}: exact {}, draws-n = {:?}, released {}, expected {})", values[i], (0..3).map(|k| i64::from(stream(k, sig[k])[i]) - i64::from(n)).collect::<Vec<_>>(), res[i], want_for(sig, i).0), case.clone())?;
+            } else {
+                // the model of how the draws are taken from the shared randomness (gate names,
+                // one sample per bucket and pass) does not explain the output under any
+                // assignment: that model is not part of the property - only the black-box checks
+                // above and the run-level moment check decide
+                labels.push("twin:cannot-explain".into());
+            }
         }
     }
-    if !bad.is_empty() {
-        // width 32: every draw equal to -1 is shared as 0, i.e. the bucket is too large by the
-        // number of such draws
-        let explained = w == 32 && bad.iter().all(|&(_, got, want, m1)| m1 > 0 && got == (want + u128::from(m1)) % (1u128 << 32));
-        let (i, got, want, m1) = bad[0];
-        if explained {
-            known_or_violation(env, "laplace-minus-one-w32", format!("width 32: {} bucket(s) released too large by exactly the number of noise draws equal to -1 (e.g. bucket {i}: exact {}, draws-n = {:?}, released {got}, expected {want})", bad.len(), values[i], (0..3).map(|k| i64::from(draws[k][i]) - i64::from(n)).collect::<Vec<_>>()), case.clone())?;
-        } else {
-            known_or_violation(env, &format!("released-bucket:w{w}"), format!("bucket {i}: exact {}, three pairwise draws minus n = {:?} (n = {n}), released {got}, expected exact + noise mod 2^{w} = {want} ({} of {b} buckets differ; {m1} draws equal -1)", values[i], (0..3).map(|k| i64::from(draws[k][i]) - i64::from(n)).collect::<Vec<_>>(), bad.len()), case.clone())?;
-        }
-    }
-    Ok(CaseOk::new(true, &(b, w, mal, eps.to_bits(), wseed, hseed, hist_kind), json!({"case": case, "n": n, "buckets_with_a_minus_one_draw": minus_one_hits, "buckets_wrapping": wrapped}))
+    Ok(CaseOk::new(true, &(b, w, mal, eps.to_bits(), wseed, hseed, hist_kind), json!({"case": case, "n": n, "buckets_with_a_minus_one_draw": minus_one_hits, "buckets_wrapping": wrapped})).labels(labels)
         .label(format!("B{b}"))
         .label(format!("w{w}"))
         .label(if mal { "malicious" } else { "semi-honest" })
@@ -1377,6 +1438,8 @@ pub fn subs(env: &Env) -> Vec<Sub> {
         Sub::random("agg_dummies_inert", 24, 48, 400, agg_dummies_inert,
             "(e) breakdown_reveal_aggregation (1 shard, BA5/BA3/BA16, B = 32) with aggregation padding on returns exactly the per-bucket sums of the real rows").shrink_iters(4),
         Sub::random("released_buckets", 24, 400, 4_000, released_buckets,
-            "(f) dp_for_histogram(DiscreteLaplace) for B in {32,256}, width in {8,16,32}, semi-honest / malicious, on histograms of zeros / near 2^w-1 / small / boundary-mixed values: consistent shares and every bucket = exact + sum over the three passes of (draw - n) mod 2^w, the draws recomputed in a twin TestWorld with the same seed from the PRSS stream shared by the two generating helpers").shrink_iters(8),
+            "(f) dp_for_histogram(DiscreteLaplace) for B in {32,256}, width in {8,16,32}, semi-honest / malicious, on histograms of zeros / near 2^w-1 / small / boundary-mixed values: consistent shares; black box: released - exact (centred) lies in [-3n, 3n] and is pooled for the run-level moment check; white box, order-agnostic: the draws are recomputed in a twin TestWorld with the same seed from the PRSS streams of the three pass gates, and SOME assignment of the three helper pairs to the three passes must explain every bucket = exact + sum of (draw - n) mod 2^w - if none does (the model of how draws are taken is not part of the property) only the black-box checks decide, except for the width-32 pattern of the repaired -1 defect").shrink_iters(8),
+        Sub::exhaustive("noise_moment", 1, 1, noise_moment,
+            "run level: mean over all pooled released buckets of noise^2 / (3 Var[one draw]) within [0.8, 1.25] (1 for three independent draws of the documented law)"),
     ]
 }
